@@ -31,6 +31,8 @@ import PMV.Core.Arr
     argmax3, fromMatrix3, fromMatrix3Rsq           quaternion.py:439-482
     atan2SC, toEuler                               matrix3.py:522-589
     crossV, ucross, twovecAssemble, twovec         matrix3.py:59-95, vector.py:448-458
+    poleRot, fromRotation                          matrix3.py:273-301, quaternion.py:129-146
+    spinCore, sepCos                               vector3.py:236-242, vector.py:519-532 (not executed by the driver)
 -/
 namespace PMV.Algebra
 open PMV
@@ -655,5 +657,52 @@ def twovec (sqrt : K → K) (v1 v2 : VecE K) (axis1 axis2 : Nat) (m0 : Mat K) : 
   (twovecAssemble axis1 axis2 unit1.get unit2.get unit3.get m0, unit1.m || v2.m || unit2.m || unit3.m)
 
 end twovec
+
+/-! ## pole_rotation (matrix3.py:273-301) and Quaternion.from_rotation (quaternion.py:129-146) -/
+
+section polerot
+variable {K : Type} [Add K] [Mul K] [Sub K] [Neg K] [Zero K] [One K]
+
+/-- `Matrix3.pole_rotation(ra, dec)` from the sines and cosines of the two angles: the nine stacked values
+    reshaped to 3×3 (matrix3.py:297-301) -/
+def poleRot (ra dec : SC K) : Mat K := fun r c =>
+  match r, c with
+  | 0, 0 => -ra.s | 0, 1 => ra.c | 0, 2 => 0
+  | 1, 0 => -ra.c * dec.s | 1, 1 => -ra.s * dec.s | 1, 2 => dec.c
+  | 2, 0 => ra.c * dec.c | 2, 1 => ra.s * dec.c | 2, 2 => dec.s
+  | _, _ => 0
+
+/-- `Quaternion.from_rotation(angle, vector)` on one element: `half` = sine and cosine of half the angle,
+    `nrm` = what `vector.norm()` returned; the Scalar division masks a zero norm and divides by 1 -/
+def fromRotation [Div K] [DecidableEq K] (half : SC K) (am : Bool) (v : VecE K) (nrm : K) : Q4 K × Bool :=
+  let zero := decide (nrm = 0)
+  let f := half.s / (if zero then 1 else nrm)
+  (fromParts half.c (fun i => f * v.get i), am || (am || (v.m || zero)) || v.m)
+
+end polerot
+
+/-! ## Vector3.spin (vector3.py:236-242) and Vector.sep (vector.py:519-532): the arithmetic cores -/
+
+section spin
+variable {K : Type} [Add K] [Mul K] [Sub K] [Neg K] [Zero K] [One K] [Div K] [DecidableEq K]
+
+/-- the last seven lines of `Vector3.spin` on one element, from the unit pole `zaxis` on:
+    `z = self.dot(zaxis); perp = self - z*zaxis; r = perp.norm(); perp = perp.mask_where_eq(ZERO, XAXIS);
+     xaxis = perp.unit(); yaxis = zaxis.cross(xaxis); r*(cos*xaxis + sin*yaxis) + z*zaxis`.
+    `r` and `rx` are what the two `norm()` calls returned (before / after the replacement of a zero `perp`). -/
+def spinCore (v zaxis : Nat → K) (a : SC K) (r rx : K) : Nat → K :=
+  let z := vdot 3 v zaxis
+  let perp := fun i => v i - z * zaxis i
+  let isZero := decide (perp 0 = 0) && decide (perp 1 = 0) && decide (perp 2 = 0)
+  let perp' : Nat → K := if isZero then (fun i => if i = 0 then 1 else 0) else perp
+  let xaxis := fun i => perp' i / (if rx = 0 then 1 else rx)
+  let yaxis := crossV zaxis xaxis
+  fun i => r * (a.c * xaxis i + a.s * yaxis i) + z * zaxis i
+
+/-- the cosine of the angle `2*sign*arcsin(0.5*|a - sign*b|) + (sign < 0)*pi` that `Vector.sep` returns, by
+    cos(2x) = 1 - 2 sin²x and cos(π - y) = -cos y; `d` is the norm `|a - sign*b|` -/
+def sepCos (sign d : K) : K := sign * (1 - (1 + 1) * ((1 / (1 + 1)) * d) * ((1 / (1 + 1)) * d))
+
+end spin
 
 end PMV.Algebra
